@@ -58,11 +58,18 @@ let run = function
     (match pinit p w with
      | None -> L [A "initfail"]
      | Some s0 ->
-       let rec go s k acc = function
-         | [] -> L [A "ok"; L (Stdlib.List.rev acc); final s]
+       (* sts: after every read the reader's book-keeping (wfp pfw), "-" after any other action *)
+       let maps (s : pstate) =
+         L [L (Stdlib.List.map (fun (pa, w) -> L [sx_bytes pa; sx_n w]) s.p_r.wfp);
+            L (Stdlib.List.map (fun (w, pa) -> L [sx_n w; sx_bytes pa]) s.p_r.pfw)] in
+       let rec go s k acc sts = function
+         | [] -> L [A "ok"; L (Stdlib.List.rev acc); final s; L (Stdlib.List.rev sts)]
          | a :: rest ->
-           (match pstep p s (action_of a) with
-            | Done (s', o) -> go s' (k + 1) (sx_obs o :: acc) rest
-            | Crash site -> L [A "crash"; sx_n site; sx_int k; L (Stdlib.List.rev acc); final s]) in
-       go s0 0 [] acts)
+           let act = action_of a in
+           (match pstep p s act with
+            | Done (s', o) ->
+              let st = (match act, o with ARead _, ORaw _ -> maps s' | _ -> A "-") in
+              go s' (k + 1) (sx_obs o :: acc) (st :: sts) rest
+            | Crash site -> L [A "crash"; sx_n site; sx_int k; L (Stdlib.List.rev acc); final s; L (Stdlib.List.rev sts)]) in
+       go s0 0 [] [] acts)
   | _ -> failwith "pipeline: bad case"
